@@ -407,6 +407,9 @@ func (w *world) oracle(mode int) []string {
 		if u.AttestedHeader.Header.SyncPeriod() != p {
 			fails = append(fails, fmt.Sprintf("update stored at period %d has a header of another period", p))
 		}
+		if types.SyncPeriod(u.AttestedHeader.SignatureSlot) != p {
+			fails = append(fails, fmt.Sprintf("update stored at period %d was signed in another period (by another committee)", p))
+		}
 		c, okc := w.chain.VerifCommittee(p)
 		if _, okn := w.chain.VerifCommittee(p + 1); !okc || !okn {
 			fails = append(fails, fmt.Sprintf("update at period %d without committees at %d and %d", p, p, p+1))
@@ -890,8 +893,14 @@ func scenario(r *Rng, emit func(Sx)) {
 		if threshold < 342 && r.Bool() {
 			cnt = 342 + r.Intn(171)
 		}
+		fin := r.Chance(1, 3)
+		if threshold > 342 && r.Chance(1, 5) {
+			// UpdateScore: a finalized update with a supermajority passes the minimum score
+			// even below the configured threshold
+			cnt, fin = 342+r.Intn(threshold-342), true
+		}
 		return updSpec{period: p, signer: genuine(p), next: genuine(p + 1), count: cnt,
-			finalized: r.Chance(1, 3), old: old, slotOff: uint64(r.Intn(50))}
+			finalized: fin, old: old, slotOff: uint64(r.Intn(50))}
 	}
 	ncOf := func(c uint64) Sx {
 		if r.Chance(1, 6) {
@@ -930,7 +939,13 @@ func scenario(r *Rng, emit func(Sx)) {
 			var u SL
 			nc := Sx(nil)
 			forged := true
-			switch r.Intn(14) {
+			switch r.Intn(15) {
+			case 14: // header of period p signed in period p+1 by the committee of p+1
+				s.signer = genuine(p + 1)
+				u = g.update(s)
+				sg := cloneL(u[1].(SL))
+				sg[3] = U((p+1)*params.SyncPeriodLength + uint64(r.Intn(10)))
+				u[1] = sg
 			case 0: // too few signers
 				if threshold <= 1 {
 					s.count = 0
@@ -1142,7 +1157,7 @@ func genAll(r *Rng, tier string, emit func(Sx)) {
 func main() {
 	Main(Family{
 		ID: "C53",
-		Rule: "each case is one scenario over a fresh light.CommitteeChain (dummy test verifier, memory DB, simulated clock) and light.HeadTracker: a trusted bootstrap (or addFixedCommitteeRoot/addCommittee setup) at a random period, forged bootstraps, then for 2-6 periods genuine updates (random signer counts, finalized or not, duplicates, better/worse scores) and forged updates of 14 classes (finalized header of another period, bad finality branch, too few signers, forged signer committee, wrong-period signer, tampered / short / long branch, forged next root, signature slot in another period, changed bitmask, junk signature, transplanted signature, version confusion, forged next committee) delivered through Validate-then-InsertUpdate in shuffled order with gaps and re-deliveries, signed heads through HeadTracker.ValidateOptimistic, re-initialisation checkpoints; mode 1 additionally contains an equivocating alternative chain and fixed-root changes to reach the reorg/rollback paths (security oracle off, structural oracle on). Non-trivial: at least two updates accepted with a state change and at least one delivery rejected in the scenario; distinct = distinct case line.",
+		Rule: "each case is one scenario over a fresh light.CommitteeChain (dummy test verifier, memory DB, simulated clock) and light.HeadTracker: a trusted bootstrap (or addFixedCommitteeRoot/addCommittee setup) at a random period, forged bootstraps, then for 2-6 periods genuine updates (random signer counts, finalized or not, duplicates, better/worse scores) and forged updates of 15 classes (header signed in the next period by the next committee, finalized header of another period, bad finality branch, too few signers, forged signer committee, wrong-period signer, tampered / short / long branch, forged next root, signature slot in another period, changed bitmask, junk signature, transplanted signature, version confusion, forged next committee) delivered through Validate-then-InsertUpdate in shuffled order with gaps and re-deliveries, signed heads through HeadTracker.ValidateOptimistic, re-initialisation checkpoints; mode 1 additionally contains an equivocating alternative chain and fixed-root changes to reach the reorg/rollback paths (security oracle off, structural oracle on). Non-trivial: at least two updates accepted with a state change and at least one delivery rejected in the scenario; distinct = distinct case line.",
 		Gen: genAll,
 		Run: run,
 	})
